@@ -67,6 +67,7 @@ def pairing(ctx: Ctx, cls, meth, attrs, label):
 
 
 def run(ctx: Ctx):
+    normalised_sites(ctx)
     ds = ctx.repo.get_class(DEC, "DecodingStrategy")
     bs = ctx.repo.get_class(DEC, "BeamSearch")
     it = pairing(ctx, ds, "step", ("actions", "logprobs"), "DecodingStrategy.step")
@@ -290,6 +291,72 @@ def _alts(s, g=()):
         yield from _alts(s.args[2], g + (s.args[0],))
     else:
         yield g, s
+
+
+NORMALISED_SITES = [
+    # (file, class or None, function): bundled decoders that pick actions with decode_logprobs(scores, mask) and report the
+    # gathered scores as log-likelihood
+    ("rl4co/models/zoo/mdam/decoder.py", "MDAMDecoder", "forward"),
+    ("rl4co/models/zoo/ptrnet/decoder.py", "Decoder", "forward"),
+    ("rl4co/models/zoo/matnet/decoder.py", "MultiStageFFSPDecoder", "forward"),
+    ("rl4co/models/zoo/eas/decoder.py", None, "forward_eas"),
+]
+
+
+def _normalised(n, depth=0):
+    """the value is a log-probability vector: log_softmax(...) / process_logits(...), possibly with entries overwritten by a
+    constant (-inf on masked actions) or indexed; any arithmetic on top of it (temperature, clipping) breaks normalisation"""
+    if depth > 40 or not isinstance(n, vg.S):
+        return False
+    while n.op == "meth" and n.args[1] in ("clone", "to", "float", "contiguous", "detach", "squeeze", "unsqueeze", "view", "reshape"):
+        n = n.args[0]
+    fn = nf._fn(n) or ""
+    if fn in ("torch.log_softmax", "torch.nn.functional.log_softmax", "F.log_softmax") or fn.endswith(":process_logits") or fn.endswith(".log_softmax"):
+        return True
+    if n.op == "meth" and n.args[1] == "log_softmax":
+        return True
+    if n.op in ("phi", "ifexp"):
+        return all(_normalised(x, depth + 1) for x in n.args[1:])
+    if n.op == "sub":
+        return _normalised(n.args[0], depth + 1)
+    if n.op == "store":
+        return _normalised(n.args[0], depth + 1) and vg.is_const(nf.strip(n.args[2])) or (_normalised(n.args[0], depth + 1) and n.args[2].op in ("neg", "call", "const"))
+    if n.op == "meth" and n.args[1] in ("masked_fill", "masked_fill_"):
+        return _normalised(n.args[0], depth + 1)
+    return False
+
+
+def normalised_sites(ctx: Ctx):
+    """C11.f the scores a bundled decoder samples from (decode_logprobs) and later gathers into the log-likelihood are
+    normalised log-probabilities -- the output of log_softmax / process_logits, not raw (clipped, masked) logits.  With raw
+    logits sampling is still from softmax(logits) (multinomial renormalises) but the reported log-likelihood lacks the
+    -logsumexp term: it is not a log-probability and the REINFORCE gradient built on it is biased."""
+    n_sites = 0
+    for path, cls, meth in NORMALISED_SITES:
+        pol = (lambda f, a: True if f.name in ("decode_logprobs",) else None)
+        if cls:
+            c = ctx.repo.get_class(path, cls)
+            fi = c.methods.get(meth)
+            it = vg.Interp(ctx.repo, c, inline_policy=pol)
+        else:
+            fi = ctx.repo.get_function(path, meth)
+            it = vg.Interp(ctx.repo, None, inline_policy=pol)
+        if fi is None:
+            raise AnalysisError(f"{path}: {cls}.{meth} not found")
+        ctx.fn(fi)
+        it.run_function(fi)
+        args = [e.data.locals.get("logprobs") for e in it.events if e.kind == "call-enter" and e.data.name.split(":")[-1].split(".")[-1] == "decode_logprobs"]
+        if not args:
+            raise AnalysisError(f"{path}: {meth} no longer calls decode_logprobs (update NORMALISED_SITES)")
+        for i, a in enumerate(args):
+            n_sites += 1
+            ok = _normalised(a)
+            ctx.ob("C11.f", f"{cls or ''}.{meth}:decode_logprobs#{i}:normalised", ok, fi.loc,
+                   "scores are log_softmax / process_logits output" if ok else
+                   f"decode_logprobs receives {vg.show(a, 3)[:160]}: raw (clipped / masked) logits, never passed through log_softmax -- the gathered values reported as "
+                   "log-likelihood are not log-probabilities", construct=f"{cls or path.split('/')[-2]}.{meth}:decode_logprobs:normalised")
+    if n_sites < 4:
+        raise AnalysisError(f"only {n_sites} decode_logprobs sites analysed (floor 4)")
 
 
 def run_thorough(ctx: Ctx):
